@@ -447,6 +447,17 @@ fn check_helpers(n: usize, p: &mut Partial) {
             }
         }
     }
+    // finiteness tests on vectors of large finite values (any reduction over the entries overflows)
+    if n > 0 {
+        for (name, v) in [("max", vec![f64::MAX; n]), ("negmax", vec![-f64::MAX; n]), ("1e308", vec![1e308; n]), ("alt", (0..n).map(|i| if i % 2 == 0 { f64::MAX } else { -f64::MAX }).collect::<Vec<f64>>())] {
+            let fin = m.array_all_finite(&col(&v));
+            let fnz = m.array_all_finite_and_nonzero(&col(&v));
+            p.evaluations += 2;
+            if !fin || !fnz {
+                viol(format!("all_finite-large-{name} n={n}"), format!("all_finite {fin}, all_finite_and_nonzero {fnz}: every entry is finite and non-zero"), p);
+            }
+        }
+    }
     // normalize, sum_ln, sq_norm_sum, recip, fill, copy, box_array round trip
     if n > 0 {
         let mut c = col(&x);
@@ -475,6 +486,32 @@ fn check_helpers(n: usize, p: &mut Partial) {
     p.evaluations += 1;
     if !mc_core::rel_close(sl, esl, 1e-12, 1e-12) {
         viol(format!("sum_ln n={n}"), format!("got {sl} expected {esl}"), p);
+    }
+    // sum_ln over the whole exponent range (the product of the entries over- or underflows long
+    // before the sum of logarithms does) and with one special entry at every index
+    if n > 0 {
+        for (name, v) in [("tiny", vec![1e-300; n]), ("huge", vec![1e300; n]), ("1e-7", vec![1e-7; n]), ("mixed", (0..n).map(|i| if i % 2 == 0 { 1e-200 } else { 1e150 }).collect::<Vec<f64>>())] {
+            let got = m.array_sum_ln(&col(&v));
+            let (want, _) = csum(v.iter().map(|t| t.ln()));
+            p.evaluations += 1;
+            if !mc_core::rel_close(got, want, 1e-12, 1e-12) {
+                viol(format!("sum_ln-{name} n={n}"), format!("got {got} expected {want}"), p);
+            }
+        }
+        for i in 0..n {
+            for sv in [0.0, f64::INFINITY, f64::NAN, -1.0, 5e-324] {
+                let mut v = pos.clone();
+                v[i] = sv;
+                let got = m.array_sum_ln(&col(&v));
+                let want: f64 = v.iter().map(|t| t.ln()).sum();
+                p.evaluations += 1;
+                let same = (got.is_nan() && want.is_nan()) || got == want || mc_core::rel_close(got, want, 1e-12, 1e-12);
+                if !same {
+                    viol(format!("sum_ln-special n={n} i={i}"), format!("value {sv}: got {got} expected {want}"), p);
+                    break;
+                }
+            }
+        }
     }
     let sq = m.sq_norm_sum(&col(&x), &col(&y));
     let (esq, _) = csum((0..n).map(|i| (x[i] + y[i]) * (x[i] + y[i])));
